@@ -102,7 +102,10 @@ type Exec struct {
 	mathHook    func(e *Exec, name string, args []Value) (Value, bool)
 	assumptions map[string]bool
 	harness     string
+	tracker     *violTracker
 	model       Model
+	relVars     []*Term
+	relSeen     map[int]bool
 	nAsserts    int
 	nTrivial    int
 	inconclusive []string
@@ -226,9 +229,8 @@ func (e *Exec) assume(c *Term) {
 			e.model = nil
 		}
 	}
-	e.S.Push()
-	e.S.Assert(c)
 	e.pcs = append(e.pcs, c)
+	e.noteVars(c)
 	e.known[c.ID] = true
 	if c.Op == ONot {
 		e.known[c.Args[0].ID] = false
@@ -272,42 +274,58 @@ func (e *Exec) Decide(c *Term) bool {
 		}
 		return d.Taken
 	}
-	feasT, feasF := false, false
+	// concolic policy: with a valid model, follow the side it satisfies (the
+	// model stays valid) and ask the solver only about the other side
 	if e.model != nil {
 		if v, ok := EvalBV(c, e.model); ok {
-			if v != 0 {
-				feasT = true
+			side := v != 0
+			other := c
+			if side {
+				other = e.B.Not(c)
+			}
+			r := e.check(other)
+			if r == Unsat {
+				e.trace = append(e.trace, Decision{Taken: side, Forced: true})
+				e.known[c.ID] = side
+				return side
+			}
+			if r == Unknown {
+				e.unknowns++
+			}
+			alt := make([]Decision, len(e.trace), len(e.trace)+1)
+			copy(alt, e.trace)
+			alt = append(alt, Decision{Taken: !side})
+			e.forks = append(e.forks, alt)
+			e.trace = append(e.trace, Decision{Taken: side})
+			if side {
+				e.assume(c)
 			} else {
-				feasF = true
+				e.assume(e.B.Not(c))
 			}
+			return side
 		}
 	}
-	var modelT Model
-	if !feasT {
-		r, m := e.checkModel(c)
-		switch r {
-		case Unsat:
-			e.trace = append(e.trace, Decision{Taken: false, Forced: true})
-			e.known[c.ID] = false
-			return false
-		case Unknown:
-			e.unknowns++
-		}
-		modelT = m
+	// no usable model: get one for the true side
+	r, modelT := e.checkModel(c)
+	switch r {
+	case Unsat:
+		e.trace = append(e.trace, Decision{Taken: false, Forced: true})
+		e.known[c.ID] = false
+		return false
+	case Unknown:
+		e.unknowns++
 	}
-	if !feasF {
-		r := e.S.CheckWith(e.B.Not(c))
-		if r == Unsat {
-			e.trace = append(e.trace, Decision{Taken: true, Forced: true})
-			e.known[c.ID] = true
-			if modelT != nil {
-				e.model = modelT
-			}
-			return true
+	rf := e.check(e.B.Not(c))
+	if rf == Unsat {
+		e.trace = append(e.trace, Decision{Taken: true, Forced: true})
+		e.known[c.ID] = true
+		if modelT != nil {
+			e.model = modelT
 		}
-		if r == Unknown {
-			e.unknowns++
-		}
+		return true
+	}
+	if rf == Unknown {
+		e.unknowns++
 	}
 	// fork: follow true, queue false
 	alt := make([]Decision, len(e.trace), len(e.trace)+1)
@@ -322,10 +340,27 @@ func (e *Exec) Decide(c *Term) bool {
 	return true
 }
 
+// check decides satisfiability of the path condition plus extra literals.
+// The path condition is passed as assumptions (check-sat-assuming): nothing is
+// ever asserted or popped, so the solver keeps its internalised terms.
+func (e *Exec) check(extra ...*Term) Result {
+	lits := make([]*Term, 0, len(e.pcs)+len(extra))
+	lits = append(lits, e.pcs...)
+	lits = append(lits, extra...)
+	return e.S.CheckWith(lits...)
+}
+
+func (e *Exec) checkVals(ts []*Term, extra ...*Term) (Result, []ModelValue) {
+	lits := make([]*Term, 0, len(e.pcs)+len(extra))
+	lits = append(lits, e.pcs...)
+	lits = append(lits, extra...)
+	return e.S.CheckModel(ts, lits...)
+}
+
 // checkModel checks PC ∧ c and returns a model over the input variables.
 func (e *Exec) checkModel(c *Term) (Result, Model) {
 	vars := e.modelVars(c)
-	r, vals := e.S.CheckModel(vars, c)
+	r, vals := e.checkVals(vars, c)
 	if r != Sat {
 		return r, nil
 	}
@@ -339,25 +374,45 @@ func (e *Exec) checkModel(c *Term) (Result, Model) {
 	return r, m
 }
 
-// modelVars: all BV/Bool input variables plus the variables of c.
+// modelVars: the BV/Bool variables occurring in the path condition or in c.
+// Variables outside this set are unconstrained, so any value (zero) extends
+// the model.
 func (e *Exec) modelVars(c *Term) []*Term {
-	seen := map[int]bool{}
-	var out []*Term
-	for _, v := range e.inputs {
-		if (v.Sort.K == SBV || v.Sort.K == SBool) && !seen[v.ID] {
-			seen[v.ID] = true
-			out = append(out, v)
-		}
-	}
+	out := append([]*Term(nil), e.relVars...)
 	if c != nil {
-		for _, v := range Vars(c) {
-			if (v.Sort.K == SBV || v.Sort.K == SBool) && !seen[v.ID] {
-				seen[v.ID] = true
-				out = append(out, v)
+		seen := map[int]bool{}
+		var walk func(t *Term)
+		walk = func(t *Term) {
+			if seen[t.ID] || e.relSeen[t.ID] {
+				return
+			}
+			seen[t.ID] = true
+			if t.Op == OVar && (t.Sort.K == SBV || t.Sort.K == SBool) {
+				out = append(out, t)
+			}
+			for _, a := range t.Args {
+				walk(a)
 			}
 		}
+		walk(c)
 	}
 	return out
+}
+
+func (e *Exec) noteVars(t *Term) {
+	if e.relSeen == nil {
+		e.relSeen = map[int]bool{}
+	}
+	if e.relSeen[t.ID] {
+		return
+	}
+	e.relSeen[t.ID] = true
+	if t.Op == OVar && (t.Sort.K == SBV || t.Sort.K == SBool) {
+		e.relVars = append(e.relVars, t)
+	}
+	for _, a := range t.Args {
+		e.noteVars(a)
+	}
 }
 
 // Concretize returns a concrete value for t, forking over all feasible values.
@@ -418,7 +473,7 @@ func (e *Exec) decideVal(c *Term, v uint64) bool {
 		return d.Taken
 	}
 	// c is feasible (v came from a model of the path condition); is the negation?
-	rf := e.S.CheckWith(e.B.Not(c))
+	rf := e.check(e.B.Not(c))
 	if rf == Unsat {
 		e.trace = append(e.trace, Decision{Taken: true, Forced: true, Val: v})
 		e.assume(c)
@@ -847,10 +902,10 @@ func (e *Exec) countAlloc(size int64, sym *Term, instr ssa.Instruction) {
 		}
 		limit := uint64(remaining / size)
 		over := e.B.BvCmp(OBvUlt, e.B.BVConst(limit, 64), sym)
-		r := e.S.CheckWith(over)
+		r := e.check(over)
 		if r == Sat {
 			// record the violation with a model and continue on the in-budget side
-			e.recordViolation("alloc", "allocation", fmt.Sprintf("allocation of more than %d bytes feasible at %s (budget %d)", remaining, e.posOf(instr), e.Cfg.AllocBudget), over)
+			e.recordViolation("alloc", "alloc budget at "+e.posOf(instr), fmt.Sprintf("allocation of more than %d bytes is feasible (budget %d)", remaining, e.Cfg.AllocBudget), over)
 			e.assume(e.B.Not(over))
 		} else if r == Unknown {
 			e.unknowns++
